@@ -14,7 +14,7 @@ def garg_strs(t):
     return tuple(ty_str(a) for a in t['f']['args'] if a.get('k') != 'region')
 
 
-@rule('I1', props=['C03', 'C09'], floor=2, configs=('all', 'default'))
+@rule('I1', props=['C03', 'C09', 'C01'], floor=2, configs=('all', 'default'))
 def i1_next_fold_agree(prog):
     """result::Iter: `next` and the specialised `fold` are siblings — fold first drains the partially
     consumed per-archetype iterator (`current_results_iter`), then visits archetypes selected by the
